@@ -252,6 +252,15 @@ def periodicDihedral (c : Consts) (p1 p2 p3 p4 : Vec) (b : Box) : Except DispErr
   let v3 ← displacement1 c (p4.sub p3) b
   pure (dihXv v1 v2 v3, dihYv v1 v2 v3, v2.normSq)
 
+/-- What `arctan2(y, x)` of `dihedral` is, as far as it is decided by exact arithmetic: `0` (planar cis),
+`pi` (planar trans, the sign of `±π` is not determined), otherwise the sign of the angle. `none`: degenerate
+(`x = y = 0`, collinear atoms). -/
+def dihedralClass (a b c d : Vec) : Option String :=
+  let x := dihX a b c d
+  let y := dihY a b c d
+  if y = 0 then (if x > 0 then some "0" else if x < 0 then some "pi" else none)
+  else if y > 0 then some "+" else some "-"
+
 /-- `move_inside_box` for one coordinate. -/
 def moveInside1 (c : Consts) (x : Vec) (b : Box) : Option Vec :=
   (coordToFraction x b).map fun f => fractionToCoord (f.map1 (fun q => pymod q c.moveMod)) b
